@@ -400,4 +400,5 @@ func c16(p *model.Prog, r *report.Result) {
 	// ---------------------------------------------------------------- R4
 	c16r4(p, r)
 	c16r6(p, r)
+	c16r78(p, r)
 }
